@@ -14,7 +14,7 @@ from .report import Ctx, finish
 PROPS = ["C%02d" % i for i in range(1, 21)]
 
 
-def run_property(pid, tier, seed, root=None, overrides=None, write=True):
+def run_property(pid, tier, seed, root=None, overrides=None, write=True, with_selftest=False):
     t0 = time.time()
     prog = Program.load(root, overrides)
     ctx = Ctx(pid, prog, tier, seed)
@@ -22,8 +22,14 @@ def run_property(pid, tier, seed, root=None, overrides=None, write=True):
     from .rules import common
     common.preconditions(ctx)
     mod.check(ctx)
+    st_rc = 0
+    if with_selftest:
+        from . import selftest
+        st_rc = selftest.run(pid, seed)
+        ctx.extra["self_test"] = getattr(selftest.run, "last_summary", {})
     if write:
-        return finish(ctx, t0, mod.EXPLANATION, mod.ASSUMPTIONS), ctx
+        rc = finish(ctx, t0, mod.EXPLANATION, mod.ASSUMPTIONS)
+        return (rc if rc != 0 else st_rc), ctx
     return None, ctx
 
 
@@ -56,10 +62,7 @@ def main(argv):
         print("tier must be quick or thorough")
         return 2
     try:
-        rc, ctx = run_property(pid, tier, seed)
-        if tier == "thorough" and rc == 0:
-            from . import selftest
-            rc = selftest.run(pid, seed)
+        rc, ctx = run_property(pid, tier, seed, with_selftest=(tier == "thorough"))
         return rc
     except AnalysisError as e:
         print("ANALYSIS-ERROR property=%s %s" % (pid, e))
